@@ -1,5 +1,5 @@
 """Confirm a sub-agent's mutation myself and run the checks against it.
-usage: seedtest.py <pid> <srcdir-with-m*/> [--checks C01,C04]
+usage: seedtest.py <pid> <srcdir-with-m*/> [--checks C01,C04] [--tag b3]
 For each m*/patch.diff: demo on clean /repo (must PASS), apply to /repo, demo (must FAIL),
 full test-suite (must pass), ./check <pid> (expect VIOLATION), undo.  Records seeded/<pid>_<m>/."""
 import sys, os, subprocess, json, shutil, glob, time
@@ -15,15 +15,16 @@ def main():
     checks = [pid]
     if "--checks" in sys.argv:
         checks = sys.argv[sys.argv.index("--checks") + 1].split(",")
+    tag = sys.argv[sys.argv.index("--tag") + 1] if "--tag" in sys.argv else ""
     for md in sorted(glob.glob(os.path.join(src, "m*"))):
         name = os.path.basename(md)
         patch, demo = os.path.join(md, "patch.diff"), os.path.join(md, "demo.py")
         if not (os.path.exists(patch) and os.path.exists(demo)):
             continue
-        cp = "/tmp/seedcopy_%s_%s" % (pid, name)
+        cp = "/tmp/seedcopy_%s_%s%s" % (pid, tag, name)
         shutil.rmtree(cp, ignore_errors=True)
         sh("rsync -a --exclude .git /repo/ %s/" % cp)
-        env = "PYTHONPATH=%s PYTHONHASHSEED=0" % cp
+        env = "PYTHONPATH=%s PYTHONHASHSEED=0 OMP_NUM_THREADS=1 OPENBLAS_NUM_THREADS=1 MKL_NUM_THREADS=1" % cp
         rec = dict(mutation=name, property=pid)
         try:
             rc0, out0 = sh("cd %s && %s timeout 900 /venv/bin/python %s" % (cp, env, demo))
@@ -50,7 +51,7 @@ def main():
         rec["valid"] = valid
         print(json.dumps(rec), flush=True)
         if valid:
-            dst = os.path.join(V, "seeded", "%s_%s" % (pid, name)); os.makedirs(dst, exist_ok=True)
+            dst = os.path.join(V, "seeded", "%s_%s%s" % (pid, tag, name)); os.makedirs(dst, exist_ok=True)
             shutil.copy(patch, dst); shutil.copy(demo, dst)
             meta = {}
             try: meta = json.load(open(os.path.join(md, "meta.json")))
